@@ -251,20 +251,21 @@ func docShape(v interface{}) string {
 }
 
 // chooseDocs picks up to n documents for the path by exhaustive scoring over the candidate set
-// (simplest first; deterministic): the first document on which the path succeeds, then the
-// documents of the same shape (only leaf values differ) that give a different outcome - these
+// (simplest first; deterministic): the first document on which the path succeeds, a document with three results
+// (or else the one with the most), then the documents of the same shape (only leaf values differ) that give a different outcome - these
 // flip the filter atoms of the path -, then the first document of every other outcome class.
 func (j *c05Job) chooseDocs(f impl.Func, n int) []int {
 	type ev struct {
 		key     string
 		success bool
+		n       int // number of results
 	}
 	evs := make([]ev, j.nSmall)
 	first := -1
 	for di, d := range j.docs[:j.nSmall] {
 		res := impl.Call(f, gen.Clone(d))
 		key := res.ErrType + "/" + show(res.Values)
-		evs[di] = ev{key, res.ErrType == "" && res.Panic == ""}
+		evs[di] = ev{key, res.ErrType == "" && res.Panic == "", len(res.Values)}
 		if first < 0 && evs[di].success {
 			first = di
 		}
@@ -279,6 +280,24 @@ func (j *c05Job) chooseDocs(f impl.Func, n int) []int {
 	}
 	if first >= 0 {
 		take(first)
+		// result sizes matter to buffer reuse: also a document with three results (a grown buffer
+		// with spare capacity) and the one with the most results
+		most, three := -1, -1
+		for di := range evs {
+			if evs[di].success {
+				if three < 0 && evs[di].n == 3 {
+					three = di
+				}
+				if most < 0 || evs[di].n > evs[most].n {
+					most = di
+				}
+			}
+		}
+		if three >= 0 && n >= 4 {
+			take(three)
+		} else if most >= 0 && n >= 4 {
+			take(most)
+		}
 		shape := docShape(j.docs[first])
 		// same shape, different outcome: failures first (they flip the atoms), then other successes
 		for pass := 0; pass < 2; pass++ {
@@ -585,7 +604,15 @@ func (j *c05Job) RunUnit(i int, c *run.Ctx) {
 						nEdits++
 					}
 				}
-				if hasCall && last != c05W && !(length == depth && last == c05X) {
+				// a trailing W is observable only through the other results the caller still holds
+				// (its appends land in their neighbourhood): it needs two calls before it
+				nCalls := 0
+				for _, op := range hist {
+					if op >= 0 {
+						nCalls++
+					}
+				}
+				if hasCall && (last != c05W || nCalls >= 2) && !(length == depth && last == c05X) {
 					exploreHistory(hist)
 				}
 				return
